@@ -327,6 +327,14 @@ theorem gen_clock_write_atomic :
     GitBugModel.Gen.WritePaths.clockWrite.contains "Rename" = true := by
   decide
 
+/-- a clock is created by the same atomic write as every later value (no file is created and
+filled in two steps), and only a missing file is reported as "this clock does not exist" — any
+other failure to open it is an error, so that an intact clock is never started anew -/
+theorem gen_clock_create_atomic :
+    GitBugModel.Gen.WritePaths.clockCreate = ["Write"] ∧
+    GitBugModel.Gen.WritePaths.clockNotExist = ["os.IsNotExist(err)"] := by
+  decide
+
 /-! ## several entities in one write path (MergeAll, pull): each entity old or new -/
 
 
